@@ -36,7 +36,7 @@ theorem getMatch_const_intro {chk : Constraint → Bytes → Bool} {seg : Seg} {
 
 theorem getMatch_param_intro {chk : Constraint → Bytes → Bool} {seg : Seg} {rest : List Seg}
     {v d path : Bytes} {pc : Bool} (hp : seg.isParam = true)
-    (hlen : findParamLen (v ++ d) seg = v.length)
+    (hlen : paramLen (v ++ d) seg rest = v.length)
     (hreq : seg.isOptional = true ∨ v ≠ []) (hcons : seg.constraints = []) :
     getMatch chk (seg :: rest) (v ++ d) path pc =
       (getMatch chk rest d (path.drop v.length) pc).map (path.take v.length :: ·) := by
@@ -88,7 +88,7 @@ theorem rawSegsOf_param (t : Tok) (rest : Pat) (wc pc : Nat) (ht : t.isParam = t
 theorem getMatch_fill {chk : Constraint → Bytes → Bool} :
     (p : Pat) → (wc pc : Nat) → (segs : List Seg) → (ds vs : List Bytes) → (path : Bytes) →
     CoreL (rawSegsOf p wc pc) segs → MetaOK segs → MetaOK2 segs → MetaOK3 segs → Delimited p = true → litsEscFree p →
-    cleanFillWith cmpOfConst p ds = true → PathFor p ds vs path →
+    cleanFillWith id p ds = true → PathFor p ds vs path →
     getMatch chk segs (fill p ds) path false = some vs
   | [], _, _, segs, ds, vs, path, hc, _, _, _, _, _, _, hpf => by
     unfold rawSegsOf at hc
@@ -127,11 +127,11 @@ where
       (rest : Pat) (wc pc : Nat) (segs : List Seg) (ds vs : List Bytes) (path : Bytes)
       (hc : CoreL (rawSegsOf (t :: rest) wc pc) segs) (hm : MetaOK segs) (hm2 : MetaOK2 segs) (hm3 : MetaOK3 segs)
       (hd : Delimited (t :: rest) = true) (hesc : litsEscFree (t :: rest))
-      (hcl : cleanFillWith cmpOfConst (t :: rest) ds = true)
+      (hcl : cleanFillWith id (t :: rest) ds = true)
       (hpf : PathFor (t :: rest) ds vs path)
       (ih : ∀ (wc' pc' : Nat) (bs : List Seg) (ds' vs' : List Bytes) (path' : Bytes),
           CoreL (rawSegsOf rest wc' pc') bs → MetaOK bs → MetaOK2 bs → MetaOK3 bs → Delimited rest = true → litsEscFree rest →
-          cleanFillWith cmpOfConst rest ds' = true → PathFor rest ds' vs' path' →
+          cleanFillWith id rest ds' = true → PathFor rest ds' vs' path' →
           getMatch chk bs (fill rest ds') path' false = some vs') :
       getMatch chk segs (fill (t :: rest) ds) path false = some vs := by
     obtain ⟨a, wc', pc', hraw, hap, hag, hao, hacs⟩ := rawSegsOf_param t rest wc pc ht
@@ -154,9 +154,9 @@ where
           have hcl' : (t.isOptional || !d.isEmpty) = true ∧ (t.isGreedy || !d.contains SLASH) = true ∧
               (match nextLit rest with
                | none => true
-               | some l => indexOf (d ++ fill rest ds') (cmpOfConst l) == some d.length &&
-                   (!t.isGreedy || occ (d ++ fill rest ds') (cmpOfConst l) == litOcc (cmpOfConst l) rest)) = true ∧
-              cleanFillWith cmpOfConst rest ds' = true := by
+               | some l => indexOf (d ++ fill rest ds') l == some d.length &&
+                   (!t.isGreedy || occ (d ++ fill rest ds') l == litOcc l rest)) = true ∧
+              cleanFillWith id rest ds' = true := by
             cases t <;> simp [cleanFillWith, Tok.isParam, Bool.and_eq_true] at hcl ht ⊢ <;>
               exact ⟨hcl.1.1.1, hcl.1.1.2, hcl.1.2, hcl.2⟩
           have hd' : delimNext rest = true ∧ Delimited rest = true := by
@@ -164,18 +164,20 @@ where
             simp only [ht, if_true, Bool.and_eq_true] at hd
             exact hd
           rw [fill_param t rest d ds' ht]
+          have hslash : b.isGreedy = true ∨ d.contains SLASH = false := by
+            rw [hbg]
+            have := hcl'.2.1
+            simp only [Bool.or_eq_true, Bool.not_eq_true'] at this
+            exact this
           -- the shape of what follows
-          have key : nextNonGreedyParam bs = false ∧
-              removeEscapeChar (nextConstCmp bs) = nextConstCmp bs ∧
-              (bs = [] → fill rest ds' = []) ∧
-              (bs ≠ [] → indexOf (d ++ fill rest ds') (nextConstCmp bs) = some d.length) ∧
-              (bs ≠ [] → b.isGreedy = true → count (d ++ fill rest ds') (nextConstCmp bs) > 1 →
-                findGreedyParamLen (d ++ fill rest ds') (count (d ++ fill rest ds') (nextConstCmp bs)) b = d.length) := by
+          have hlen : paramLen (d ++ fill rest ds') b bs = d.length := by
             cases rest with
             | nil =>
               unfold rawSegsOf at hrest
               cases hrest
-              refine ⟨rfl, rfl, fun _ => rfl, fun h => absurd rfl h, fun h => absurd rfl h⟩
+              rw [paramLen_nil]
+              exact findParamLen_fill_core hm hm2 hbp rfl rfl hslash (fun _ => rfl)
+                (fun h => absurd rfl h) (fun h => absurd rfl h)
             | cons t2 rest2 =>
               cases t2 with
               | lit l =>
@@ -189,37 +191,61 @@ where
                   have hl : l.contains BSL = false :=
                     hesc (.lit l) (List.mem_cons_of_mem _ (List.mem_cons_self ..)) l rfl
                   simp only [nextLit, Bool.and_eq_true, beq_iff_eq, Bool.or_eq_true, Bool.not_eq_true'] at hcl'
-                  refine ⟨by simp [nextNonGreedyParam, hb2p], ?_, fun h => (by cases h), fun _ => ?_, fun _ hg _ => ?_⟩
-                  · rw [hncc]; exact removeEscapeChar_id _ (cmpOfConst_escFree l hl)
-                  · rw [hncc]; exact hcl'.2.2.1.1
-                  · -- stage (ii-b): the right-to-left loop on a clean fill
-                    have hlne : l ≠ [] := by
-                      intro hh; rw [hh] at hd'; simp [delimNext, startsWithDelim] at hd'
-                    have hocc : occ (d ++ fill (.lit l :: rest2) ds') (cmpOfConst l) =
-                        litOcc (cmpOfConst l) (.lit l :: rest2) := by
-                      rcases hcl'.2.2.1.2 with h | h
-                      · rw [hbg, h] at hg; cases hg
-                      · exact h
-                    obtain ⟨g1, g2⟩ := greedy_strip hlne hcl'.2.2.1.1 hocc
-                    have hcp : b.comparePart = cmpOfConst l := by
-                      rw [hm.2.1 hbp, hncc]; exact removeEscapeChar_id _ (cmpOfConst_escFree l hl)
-                    have hpc : b.partCount = litCount (cmpOfConst l) (.lit l :: rest2) := by
-                      rw [hm3.1 hbp (by rw [hcp]; exact cmpOfConst_ne_nil hlne), hcp,
+                  have hesc' : removeEscapeChar (nextConstCmp (b2 :: bs2)) = nextConstCmp (b2 :: bs2) := by
+                    rw [hncc]; exact removeEscapeChar_id _ (cmpOfConst_escFree l hl)
+                  have hcp : b.comparePart = cmpOfConst l := by rw [hm.2.1 hbp, hesc', hncc]
+                  have hlne : l ≠ [] := by
+                    intro hh; rw [hh] at hd'; simp [delimNext, startsWithDelim] at hd'
+                  have hnng : nextNonGreedyParam (b2 :: bs2) = false := by simp [nextNonGreedyParam, hb2p]
+                  have hidx : indexOf (d ++ fill (.lit l :: rest2) ds') l = some d.length := hcl'.2.2.1.1
+                  have hocc : b.isGreedy = true →
+                      occ (d ++ fill (.lit l :: rest2) ds') l = litOcc l (.lit l :: rest2) := by
+                    intro hg
+                    rcases hcl'.2.2.1.2 with h | h
+                    · rw [hbg, h] at hg; cases hg
+                    · exact h
+                  by_cases hlong : l.length > (cmpOfConst l).length
+                  · -- the literal has trailing slashes the search text lacks; the fill holds the literal
+                    -- in full, so the matcher searches for the literal itself
+                    have hbl : b.isLast = false := by
+                      cases h : b.isLast
+                      · rfl
+                      · exact absurd (hm2.1.mp h) (by simp)
+                    have hb0 : b.length = 0 := hm2.2.1 hbp hnng
+                    rw [paramLen_full hbl hb0 (by rw [hb2c, hcp]; exact hlong) (by rw [hb2c, hidx]; rfl), hb2c]
+                    rcases Bool.eq_false_or_eq_true b.isGreedy with hg | hg
+                    · rw [if_pos hg]
+                      obtain ⟨g1, g2⟩ := greedy_strip_full hlne hidx (hocc hg)
+                      have hpc : partCountOf l (b2 :: bs2) = litCount l (.lit l :: rest2) := by
+                        rw [CoreL.partCountOf_eq _ (.cons hab2 hrest2), ← partCountOf_rawSegsOf _ (.lit l :: rest2) wc' pc']
+                        rfl
+                      unfold findGreedyParamLen
+                      simp only
+                      rw [hpc, g1, findGreedyLoop_eq_stripR, Nat.min_self, g2]
+                    · rw [if_neg (by rw [hg]; simp)]
+                      have hs : d.contains SLASH = false := by
+                        rcases hslash with h | h
+                        · rw [hg] at h; cases h
+                        · exact h
+                      exact findParamLen_at (seg := { b with comparePart := l, partCount := partCountOf l (b2 :: bs2) })
+                        hbl hb0 hg hs hidx
+                  · -- the search text is the literal itself
+                    have hkey : cmpOfConst l = l := cmpOfConst_eq_of_length hlong
+                    rw [paramLen_noFull (by rw [hb2c, hcp]; exact hlong)]
+                    refine findParamLen_fill_core hm hm2 hbp hnng hesc' hslash (fun h => (by cases h))
+                      (fun _ => by rw [hncc, hkey]; exact hidx) (fun _ hg _ => ?_)
+                    -- stage (ii-b): the right-to-left loop on a clean fill
+                    obtain ⟨g1, g2⟩ := greedy_strip_full hlne hidx (hocc hg)
+                    have hpc : b.partCount = litCount l (.lit l :: rest2) := by
+                      rw [hm3.1 hbp (by rw [hcp, hkey]; exact hlne), hcp, hkey,
                         CoreL.partCountOf_eq _ (.cons hab2 hrest2), ← partCountOf_rawSegsOf _ (.lit l :: rest2) wc' pc']
                       rfl
-                    rw [hncc, g1]
+                    rw [hncc, hkey, g1]
                     unfold findGreedyParamLen
-                    rw [hcp, hpc, findGreedyLoop_eq_stripR, Nat.min_self, g2]
+                    rw [hcp, hkey, hpc, findGreedyLoop_eq_stripR, Nat.min_self, g2]
               | named _ _ => simp [delimNext] at hd'
               | star => simp [delimNext] at hd'
               | plus => simp [delimNext] at hd'
-          obtain ⟨k1, k2, k3, k4, k5⟩ := key
-          have hslash : b.isGreedy = true ∨ d.contains SLASH = false := by
-            rw [hbg]
-            have := hcl'.2.1
-            simp only [Bool.or_eq_true, Bool.not_eq_true'] at this
-            exact this
-          have hlen := findParamLen_fill_core hm hm2 hbp k1 k2 hslash k3 k4 k5
           have hreq : b.isOptional = true ∨ d ≠ [] := by
             rw [hbo]
             have := hcl'.1
